@@ -191,10 +191,15 @@ class LexInf(Inference):
             return True
         if min_len_f < min_len_v:
             return False
+        # Tie in this layer: the query holds iff SOME minimum-cardinality verifying set has a
+        # continuation that beats the continuation of EVERY minimum-cardinality falsifying set
+        # (the least vector over the verifying worlds must be smaller than the least vector
+        # over the falsifying worlds).
+        if partition_index == 0:
+            return False
         for xi_v in min_mcs_v:
+            beats_all = True
             for xi_f in min_mcs_f:
-                if partition_index == 0:
-                    return False
                 hard_constraints_new_v = hard_constraints_v.copy()
                 hard_constraints_new_f = hard_constraints_f.copy()
                 for i in part:
@@ -225,9 +230,12 @@ class LexInf(Inference):
                     deadline,
                 )
                 if result == False:
-                    return False
+                    beats_all = False
+                    break
+            if beats_all:
+                return True
 
-        return True
+        return False
 
 
 """
